@@ -112,9 +112,108 @@ def py_replay(ops_path, outdir):
     return rc == 0
 
 
+# ---------------------------------------------------------------- c kind (C extension bplustree_c)
+
+C_H = os.path.join(ROOT, "harness", "py", "charness.py")
+
+
+def _c(args, timeout, asan=False):
+    import sys
+    env = dict(PY_ENV)
+    if asan:
+        rc, lib = _sh(["gcc", "-print-file-name=libasan.so"])
+        env["LD_PRELOAD"] = lib.strip()
+        env["ASAN_OPTIONS"] = "detect_leaks=0:abort_on_error=0:halt_on_error=1"
+    try:
+        p = subprocess.run([sys.executable, C_H] + args, env=env, stdout=subprocess.PIPE, stderr=subprocess.STDOUT, timeout=timeout,
+                           text=True, errors="replace", preexec_fn=None if asan else _limit)
+        return p.returncode, p.stdout
+    except subprocess.TimeoutExpired:
+        return 124, "<timeout after %ss>" % timeout
+
+
+def c_build():
+    with _Lock("cext"):
+        rc, out = _c(["build"], 600)
+    return rc == 0, out
+
+
+def _last_case(outdir):
+    last = "?"
+    try:
+        for l in open(os.path.join(outdir, "ops.txt")):
+            if l.startswith("case "):
+                last = l.split()[1]
+    except OSError:
+        pass
+    return last
+
+
+def _c_post(outdir, rc, out, what):
+    """abnormal termination of the driver process and sanitizer reports are C13 oracle failures"""
+    msgs = []
+    if "AddressSanitizer" in out:
+        m = [l for l in out.split("\n") if "AddressSanitizer" in l or l.strip().startswith("#0") or l.strip().startswith("#1")]
+        msgs.append("%s: AddressSanitizer report: %s" % (what, " | ".join(x.strip() for x in m[:4])))
+    elif rc not in (0,):
+        msgs.append("%s: driver process terminated abnormally (exit status %s): %s" % (what, rc, out.strip().split("\n")[-1][:200] if out.strip() else ""))
+    if msgs:
+        with open(os.path.join(outdir, "oracle.txt"), "a") as f:
+            for m in msgs:
+                f.write("[C13] case=%s %s\n" % (_last_case(outdir), m))
+    return msgs
+
+
+def c_gen(suite, seed, budget, outdir, corpus_lines):
+    args = ["gen", suite, "--seed", str(seed), "--out", outdir]
+    for k, v in budget.items():
+        args += ["--" + k, str(v)]
+    if corpus_lines:
+        cp = os.path.join(outdir, "corpus.txt")
+        with open(cp, "w") as f:
+            f.write("\n".join(corpus_lines) + "\n")
+        args += ["--corpus", cp]
+    rc, out = _c(args, 7200)
+    _c_post(outdir, rc, out, "plain build")
+    # the same operation lines under AddressSanitizer
+    adir = os.path.join(outdir, "asan")
+    os.makedirs(adir, exist_ok=True)
+    asan_info = {"ran": False}
+    if os.path.exists(os.path.join(outdir, "ops.txt")):
+        rc2, out2 = _c(["replay", os.path.join(outdir, "ops.txt"), "--variant", "asan", "--out", adir], 7200, asan=True)
+        bad = _c_post(outdir, rc2, out2, "ASan build")
+        same = False
+        try:
+            same = open(os.path.join(adir, "impl.txt")).read() == open(os.path.join(outdir, "impl.txt")).read()
+        except OSError:
+            pass
+        asan_info = {"ran": True, "exit_status": rc2, "reports": len(bad), "same_answers_as_plain_build": same}
+    import shutil, json
+    if os.path.exists(os.path.join(outdir, "stats.json")):
+        try:
+            st = json.load(open(os.path.join(outdir, "stats.json")))
+            st["asan"] = asan_info
+            json.dump(st, open(os.path.join(outdir, "events.json"), "w"))
+        except ValueError:
+            pass
+    # a crash is reported through oracle.txt with the ops written so far; the run counts as finished
+    return {"ok": True, "log": "harness exit status %s\n%s" % (rc, out[-2000:])}
+
+
+def c_replay(ops_path, outdir):
+    rc, out = _c(["replay", ops_path, "--out", outdir], 300)
+    _c_post(outdir, rc, out, "plain build")
+    adir = os.path.join(outdir, "asan")
+    os.makedirs(adir, exist_ok=True)
+    rc2, out2 = _c(["replay", ops_path, "--variant", "asan", "--out", adir], 300, asan=True)
+    _c_post(outdir, rc2, out2, "ASan build")
+    return rc == 0
+
+
 KINDS = {
     "rust": {"build": rust_build, "gen": rust_gen, "replay": rust_replay},
     "py": {"build": py_build, "gen": py_gen, "replay": py_replay},
+    "c": {"build": c_build, "gen": c_gen, "replay": c_replay},
 }
 
 # ---------------------------------------------------------------- measurement
@@ -234,7 +333,32 @@ def measure_py(kind):
     return measure
 
 
+def measure_c(kind):
+    def nontrivial(lines, outs):
+        grew = any(l == "C dump" and " h=0 " not in o and o.startswith("cap=") for l, o in zip(lines, outs))
+        deleted = any(l.startswith("C del") and o == "ok" for l, o in zip(lines, outs))
+        if kind == "caps":
+            return any(o == "err capacity" for o in outs) and any(o == "ok" for o in outs)
+        return grew and deleted
+
+    def measure(ops, impl, cases):
+        d, nt, samples = _distinct(cases, ops, nontrivial, impl)
+        caps = {}
+        for l in ops:
+            w = l.split()
+            if len(w) >= 3 and w[0] == "C" and w[1] == "new":
+                caps[w[2]] = caps.get(w[2], 0) + 1
+        return {"distinct_cases": d, "distinct_nontrivial": nt, "samples": samples, "op_histogram": _hist(ops),
+                "capacities": dict(sorted(caps.items(), key=lambda kv: int(kv[0]))[:40]),
+                "runtimeerrors": sum(1 for o in impl if o == "runtimeerror"), "keyerrors": sum(1 for o in impl if o == "keyerror"),
+                "dumps_compared": sum(1 for l in ops if l == "C dump"), "refcount_lines_compared": sum(1 for l in ops if l == "C refs")}
+    return measure
+
+
 SUITES = {
+    "c-ops": {"measure": measure_c("ops")},
+    "c-exh": {"measure": measure_c("ops")},
+    "c-caps": {"measure": measure_c("caps")},
     "py-ops": {"measure": measure_py("ops")},
     "py-range": {"measure": measure_py("range")},
     "py-deep": {"measure": measure_py("deep")},
